@@ -102,7 +102,8 @@ def mutations(name, raw, rng, tier):
 def main(tier, seed):
     dec = common.Decision('C12', tier, seed)
     common.static_gate(dec, ['Properties/C12.v'], ['Proofs/FsmProofs.v', 'Proofs/FsmProofs2.v', 'Proofs/FsmSpecProofs.v',
-                                                   'Proofs/ProviderProofs.v', 'Proofs/ProviderTheorems.v'])
+                                                   'Proofs/ProviderProofs.v', 'Proofs/ProviderTheorems.v',
+                                                   'Proofs/FsmWProofs.v', 'Proofs/ProviderWProofs.v'])
     rng = random.Random(seed)
     cases = []
     tail = [('idle',)] * 3 + [('close',)] + [('idle',)] * 3
@@ -135,24 +136,21 @@ def main(tier, seed):
         runner=runner, prefix='Lenient')
     broken += broken2
     # the peer RESETS the connection while the provider still has something to send (its A-ABORT in answer to an
-    # unrecognised PDU, the local user's abort / release / data): the kernel refuses the write.  The model has no
-    # failing writes, so only the property's oracle applies: the loop survives, the user is told, all is closed
-    junk = b'\xff\x00\x00\x00\x00\x04junk'
-    resets = []
-    for plabel, acceptor, pre in prefixes():
-        resets.append(dict(label=[plabel, 'junk-then-reset'], acceptor=acceptor, lenient=True, fail_sends=True,
-                           ops=list(pre) + [('segreset', junk)] + [('idle',)] * 4))
-        resets.append(dict(label=[plabel, 'data-then-reset'], acceptor=acceptor, lenient=True, fail_sends=True,
-                           ops=list(pre) + [('segreset', b'\x04\x00\x00\x00\x00\x0a\x00\x00\x00\x06\x01\x07abcd')] + [('idle',)] * 4))
-    _rn, res3, f3, broken3, _r = pd.run_cases(
-        'C12', dec, resets, [('corr', 'prov_corr', 'stat'), ('spec', 'c05_spec', 'stat'), ('rest', 'ends_at_rest')], size=50,
+    # unrecognised PDU, the local user's abort / release / data while an incomplete PDU is being read): the kernel
+    # refuses the write.  Model.ProviderW has such a transport (repair D23): model = implementation, and the
+    # property's oracle: the loop survives, the user is told, all is closed
+    resets = pd.reset_scenarios(prefixes(), rng, 6 if tier == 'quick' else 60)
+    for c in resets:
+        c['lenient'] = False
+    _rn, res3, f3, broken3 = pd.run_cases_w(
+        'C12', dec, resets, [('corr', 'prov_corr_w'), ('spec', 'c05_spec_w'), ('rest', 'ends_at_rest_w')], size=50,
         runner=runner, prefix='Reset')
     broken += broken3
     cases = modelled + lenient + resets
     results = res1 + res2 + res3
     off = len(modelled)
     off3 = off + len(lenient)
-    failing = dict((k, f1[k] + [off + i for i in f2[k]] + ([off3 + i for i in f3[k]] if k == 'rest' else [])) for k in f1)
+    failing = dict((k, f1[k] + [off + i for i in f2[k]] + [off3 + i for i in f3[k]]) for k in f1)
     cov = dec.coverage
     cov['evaluations'] = len(cases)
     cov['distinct_nontrivial'] = len(set((c['label'][0], tuple(pd.short_ops(c['ops'])[-8:-7])) for c in cases))
@@ -164,6 +162,8 @@ def main(tier, seed):
     cov['distribution'] = dict(by_state=dict(collections.Counter(c['label'][0] for c in cases)),
                                outcomes=dict(collections.Counter(r['outcome'] for r in results)),
                                lenient_command_set_inputs=sum(1 for c in cases if c['lenient']),
+                               reset_scenarios=len(resets),
+                               reset_scenarios_with_a_refused_write=sum(1 for r in res3 if r.get('refused_writes')),
                                aborts_sent=sum(1 for r in results if any(w[:1] == b'\x07' for w in r['wire'])))
     cov['samples'] = [dict(label=c['label'], ops=pd.short_ops(c['ops'])[-9:], result=pd.summary(r))
                       for c, r in list(zip(cases, results))[50:52]]
@@ -175,6 +175,9 @@ def main(tier, seed):
     bad = set(failing['spec']) | set(failing['rest'])
     for i in sorted(bad):
         chk = ('spec', 'c05_spec') if i in set(failing['spec']) else ('rest', 'ends_at_rest')
+        if cases[i].get('fail_sends'):       # (the shrinker runs the plain transport)
+            dec.report(rec(i, 'crash-hang-or-not-at-rest'))
+            continue
         dec.report(pd.with_minimal('C12', rec(i, 'crash-hang-or-not-at-rest'), cases[i], chk))
     lenient_diff = 0
     lenient_samples = []
@@ -186,7 +189,8 @@ def main(tier, seed):
             lenient_samples.append(dict(label=cases[i]['label'], ops=pd.short_ops(cases[i]['ops'])[-6:],
                                         result=pd.summary(results[i])))
             continue
-        dec.report(dict(rec(i, 'model-differs'), theorem='correspondence prov_corr'), no_input=True)
+        dec.report(dict(rec(i, 'model-differs'), theorem='correspondence prov_corr_w (Corr/CorrProviderW.v)'
+                        if cases[i].get('fail_sends') else 'correspondence prov_corr'), no_input=True)
     cov['lenient_inputs_where_model_differs'] = lenient_diff
     cov['lenient_inputs_where_model_differs_samples'] = lenient_samples[:8]
     if lenient_diff:
